@@ -134,6 +134,18 @@ class Counter:
             for _ in range(int(np.prod(shape, dtype=int))):
                 self.value()
             return np.zeros(shape, dtype=self.dtype)
+        if self.pattern == "illcond" and len(shape) == 2:
+            # a block with prescribed, widely spread singular values 1, 1e-3, 1e-6, ... between two deterministic
+            # orthonormal frames (non-integral data: judged through the tolerance observations)
+            m, n = shape
+            k = min(m, n)
+            s0 = self.value()
+            qa, _ = np.linalg.qr(np.sin(0.7 + s0 + np.outer(np.arange(1, m + 1), np.arange(1, k + 1)) * 1.37))
+            qb, _ = np.linalg.qr(np.cos(0.3 + s0 + np.outer(np.arange(1, n + 1), np.arange(1, k + 1)) * 0.91))
+            a = (qa[:, :k] * (10.0 ** (-3.0 * np.arange(k)))) @ qb[:, :k].T
+            if "complex" in self.dtype:
+                a = a * np.exp(0.4j)
+            return np.asarray(a).astype(self.dtype)
         if self.pattern and len(shape) == 2:
             return self.monomial(shape, self.pattern)
         size = int(np.prod(shape, dtype=int))
